@@ -62,15 +62,24 @@ func bgvBinKinds() []Kind {
 		return v
 	}
 	return []Kind{
+		// ciphertext x ciphertext: every (degree of op0, degree of op1) in {1,2}^2 crossed with equal / different
+		// scales (the scale-matching path is a different function), the level relation varying along the list;
+		// each kind is then crossed with every aliasing pattern (out fresh, out==op0, out==op1, op0==op1, all equal)
 		mk("ct1-ct1", 1, 0, 0, ctOp(1, 0, 0)),
 		mk("ct1-ct1/scale", 1, 0, 5, ctOp(1, 0, 3)),
 		mk("ct1-ct1/level", 1, 0, 0, ctOp(1, -1, 0)),
 		mk("ct1-ct1/scale+level", 1, -1, 7, ctOp(1, 0, 11)),
 		mk("ct1-ct2", 1, 0, 0, ctOp(2, 0, 0)),
+		mk("ct1-ct2/scale", 1, 0, 5, ctOp(2, -1, 3)),
+		mk("ct2-ct1", 2, -1, 0, ctOp(1, 0, 0)),
 		mk("ct2-ct1/scale", 2, 0, 5, ctOp(1, 0, 3)),
+		mk("ct2-ct2", 2, 0, 0, ctOp(2, -1, 0)),
+		mk("ct2-ct2/scale", 2, -1, 7, ctOp(2, 0, 11)),
+		// ciphertext x plaintext (degree 0): degrees 1 and 2 crossed with equal / different scales
 		mk("ct1-pt", 1, 0, 0, ptOp(0, 0)),
 		mk("ct1-pt/scale", 1, 0, 5, ptOp(0, 3)),
 		mk("ct1-pt/level", 1, 0, 0, ptOp(-1, 0)),
+		mk("ct2-pt", 2, 0, 0, ptOp(-1, 0)),
 		mk("ct2-pt/scale", 2, -1, 5, ptOp(0, 3)),
 		mk("ct1-bigint", 1, 0, 0, func(*Env, *Gen) interface{} { return big.NewInt(1000) }),
 		mk("ct1/scale-bigint", 1, 0, 5, func(*Env, *Gen) interface{} { return big.NewInt(-77) }),
@@ -86,7 +95,8 @@ func bgvBinKinds() []Kind {
 // coarse operand classes used in signatures: the kind of op1, and whether scales / degrees differ
 var bgvClass = map[string]string{
 	"ct1-ct1": "ct-ct", "ct1-ct1/level": "ct-ct", "ct1-ct1/scale": "ct-ct/scale", "ct1-ct1/scale+level": "ct-ct/scale",
-	"ct1-ct2": "ct-ct/degree", "ct2-ct1/scale": "ct-ct/scale",
+	"ct1-ct2": "ct-ct/degree", "ct2-ct1/scale": "ct-ct/scale", "ct1-ct2/scale": "ct-ct/degree+scale", "ct2-ct1": "ct-ct/degree",
+	"ct2-ct2": "ct-ct/degree2", "ct2-ct2/scale": "ct-ct/degree2+scale", "ct2-pt": "ct-pt",
 	"ct1-pt": "ct-pt", "ct1-pt/level": "ct-pt", "ct1-pt/scale": "ct-pt/scale", "ct2-pt/scale": "ct-pt/scale",
 	"ct1-bigint": "bigint", "ct1/scale-bigint": "bigint", "ct2-bigint": "bigint",
 	"ct1-uint64": "uint64", "ct1-int64": "int64", "ct1-int": "int", "ct1-[]uint64": "[]uint64", "ct2-[]int64": "[]int64",
